@@ -6,9 +6,9 @@ import json
 
 PROPS = {
     'C20': {
-        'always_cmds': [['exploreflood']],
+        'always_cmds': [['exploreflood'], ['explorenoinfo']],
         'engines': [('explore', 150, 3000, ['-shardsize', '50'])],
-        'rule': 'plus, in every run, the queue flood (exploreflood: 10060 targets, 4 workers whose probes hang, Get(all) until nothing moves, release, Get(all) again: Get must return and every target must have been probed); histories of 8-20 (8-30) ops on the REAL Explore with 1-3 worker goroutines: full discovery updates over 5 hashes x 3 jobs '
+        'rule': 'plus explorenoinfo (a probe attempted while the scrape manager has no client for the job is a failed probe: shown as bad, retried, succeeds once the client exists, then silence - a path outside Model/Explore.v); plus, in every run, the queue flood (exploreflood: 10060 targets, 4 workers whose probes hang, Get(all) until nothing moves, release, Get(all) again: Get must return and every target must have been probed); histories of 8-20 (8-30) ops on the REAL Explore with 1-3 worker goroutines: full discovery updates over 5 hashes x 3 jobs '
                 '(adds, removals, moves), Get, reloads dropping/restoring a job, completion of the oldest blocked probe of a hash with success '
                 '(counts) or failure, and "let the retry timers fire" (real sleeps; retry interval 400 ms via hook); the probe function is '
                 'replaced (hook) by one that blocks until the harness completes it, so the harness is the scheduler. Observed after every op: '
@@ -52,13 +52,14 @@ PROPS = {
                        'property',
                        "lines within the parser's 256 KiB limit; gzip decoding is a function applied before the tee (chunks are the decompressed "
                        'reads)'],
-    'engines': [('proxy', 600, 12000, ['-propok', 'c12_case', '-shardsize', '100'])],
+    'always_cmds': [['proxyoverlap']],
+        'engines': [('proxy', 600, 12000, ['-propok', 'c12_case', '-shardsize', '100'])],
     'level_note': 'Trusted: Coq kernel; hand-written model of tee + consumer + ResponseWriter automaton; multi-megabyte payloads and the 256 KiB '
                   'line limit are not in the Coq-evaluated cases (payloads <= a few KB).',
     'level_text': 'Proof: for every alphabet, body, split into read chunks, write schedule of accepting writes, content type, assigned or not: '
                   'status 200, body = concatenation of the chunks, content type set before the first byte, response completed; plus the prefix '
                   'invariant for every schedule. Tied to the code by differential runs with scheduled readers and writers.',
-    'rule': 'one PRNG: requests with job known/unknown, hash parseable or not, target assigned or not, stop reason set or not; target response = '
+    'rule': 'plus, in every run, several scrapes in flight through ONE proxy (proxyoverlap: 8 targets with distinct bodies, the even ones gzip; a scrape parked in the middle of its body while another target is scraped twice, then released; then 8 goroutines x 40 scrapes): every answer must be the bytes of its target; one PRNG: requests with job known/unknown, hash parseable or not, target assigned or not, stop reason set or not; target response = '
             'connection error, non-200 status, or 200 with a body of 0-30 (up to 120 thorough) exposition lines (comments, blank and unparseable '
             'lines, long label values, with/without trailing newline), identity or gzip, served through a reader returning scheduled chunk sizes '
             "(1..4000 bytes) and ending in EOF, EOF together with the last data, an error, or a 'connection reset by peer' error after a random "
